@@ -178,7 +178,7 @@ Definition g_mutate (w: world gst) (code arg: nat) (sc: list step) : world gst :
       (* the real code indexes `states[index]`: out of range would panic; likewise inserting while post-loop bookkeeping is
          outstanding cannot happen through the API.  Both are made explicit so that nothing is silently totalised. *)
       if (k <? length (g_states s)) && g_clean s then emit _ (w_occupy _ w1 s' k sc) [EK k]
-      else set_flags _ (emit _ w1 [EEndX]) true true true
+      else set_flags _ (set_ret _ (emit _ w1 [EEndX]) false) true true true
   | 1 => (* remove the key returned by the arg-th insert *)
       let s := cs _ w in
       match nth_error (g_ret s) arg with
